@@ -352,8 +352,11 @@ func (au *audition) checkEvent(ctx context.Context, final bool, ev sigEvent) err
 	// auditors in the loop.
 	for _, audienceName := range au.cfg.audienceNames {
 		as, ok := au.st.auditorStates[audienceName]
-		if !ok || !as.activated {
+		if !ok || !(as.activated || (final && as.auditing)) {
 			// audience still dormant: not interested.
+			// (In the final round, every auditor still inside an
+			// activation period gets its end-of-period judgement, also
+			// when none of the variables it depends on was assigned.)
 			continue
 		}
 		am := au.cfg.audience[audienceName]
